@@ -12,6 +12,7 @@ Definition run (req : sexp) : sexp :=
   | Li [At "comp"; x] => run_comp x
   | Li [At "wfpil"; x] => run_wfpil x
   | Li [At "denote"; x] => run_denote x
+  | Li [At "results"; x] => run_results x
   | Li [At "design"; x] => run_design x
   | Li [At "contract"; x] => run_contract x
   | Li [At "files"; x] => run_files x
